@@ -534,6 +534,14 @@ func runCase(cs *Case, ci int, pty *ptyPair, em *emu, home string) (alive bool) 
 		}
 	}
 
+	hname := func() (n string) {
+		defer func() {
+			if recover() != nil {
+				n = "?"
+			}
+		}()
+		return rl.History.Name()
+	}
 	snap := func() map[string]any {
 		bp, ep := rl.Selection().Pos()
 		_, regsel := rl.Buffers.IsSelected()
@@ -543,6 +551,15 @@ func runCase(cs *Case, ci int, pty *ptyPair, em *emu, home string) (alive bool) 
 			"upos": rl.History.Pos(), "kill": ints(rl.Buffers.GetKill()), "rega": ints(rl.Buffers.Get('a')), "rec": rl.Macros.Recording(),
 			"argset": rl.Iterations.IsSet(), "regsel": regsel, "mark": rl.Cursor().Mark(), "minibuf": rl.Line() != mainLine,
 		}
+		// the history source the library says it is using (a panic in the accessor is not what is observed here)
+		func() {
+			defer func() {
+				if recover() != nil {
+					m["hname"] = "?"
+				}
+			}()
+			m["hname"] = rl.History.Name()
+		}()
 		return m
 	}
 	if cs.Wrap != "none" {
@@ -644,11 +661,11 @@ func runCase(cs *Case, ci int, pty *ptyPair, em *emu, home string) (alive bool) 
 							break
 						}
 					}
-					logj(map[string]any{"ev": "api", "c": cs.ID, "s": si, "what": "History.Delete", "arg": a.S})
+					logj(map[string]any{"ev": "api", "c": cs.ID, "s": si, "what": "History.Delete", "arg": a.S, "sources": dumpSources(), "hname": hname()})
 				case "histdelall":
 					rl.History.Delete()
 					srcs = nil
-					logj(map[string]any{"ev": "api", "c": cs.ID, "s": si, "what": "History.Delete", "arg": "*"})
+					logj(map[string]any{"ev": "api", "c": cs.ID, "s": si, "what": "History.Delete", "arg": "*", "sources": dumpSources(), "hname": hname()})
 				case "histadd":
 					src := readline.NewInMemoryHistory()
 					for _, l := range strings.Split(a.H, "|") {
@@ -657,8 +674,17 @@ func runCase(cs *Case, ci int, pty *ptyPair, em *emu, home string) (alive bool) 
 						}
 					}
 					rl.History.Add(a.S, src)
-					srcs = append(srcs, boundSrc{a.S, src, nil})
-					logj(map[string]any{"ev": "api", "c": cs.ID, "s": si, "what": "History.Add", "arg": a.S})
+					replaced := false
+					for i := range srcs {
+						if srcs[i].name == a.S { // a bound name is bound anew
+							srcs[i] = boundSrc{a.S, src, nil}
+							replaced = true
+						}
+					}
+					if !replaced {
+						srcs = append(srcs, boundSrc{a.S, src, nil})
+					}
+					logj(map[string]any{"ev": "api", "c": cs.ID, "s": si, "what": "History.Add", "arg": a.S, "sources": dumpSources(), "hname": hname()})
 				case "rebind":
 					if parts := strings.SplitN(a.S, "|", 2); len(parts) == 2 {
 						rl.Config.Bind(parts[0], string(unhex(a.H)), parts[1], a.N == 1)
